@@ -104,7 +104,10 @@ def judge_docs(out, cases, want, mine, label=""):
         if r.get("status") == "harness-error":
             raise common.Machinery("harness error: %s\n%s" % (r.get("exc"), r.get("trace", "")))
         if r["status"] != "ok":
-            out.skip("crashed (judged by C04): %s@%s" % (r["exc"], r["frame"]))
+            if pipeline.known_crash(c, r):
+                out.skip("crashed at a call site recorded as a known finding of C04: %s@%s" % (r["exc"], r["frame"]))
+            else:
+                out.violation("%s.%s:%s@%s" % (out.prop, r["status"], r["exc"], r["frame"]), c, "no document to judge " + label)
             continue
         traces.append(make_doc_trace(c, r, want))
         live.append((c, r))
